@@ -21,6 +21,14 @@
 mod verif_c19 {
     use crate::blueprint::{CloningPolicy, Lifecycle, Lint, RegisteredConfig, RegisteredConstructor, RegisteredPrebuilt};
     use pavex_bp_schema as sch;
+    // nondeterminism layer: solver-chosen values under Kani; a seeded native search when a counterexample
+    // has to be made concrete - and since this harness runs on the real, unshimmed crates, a failing
+    // native run of the same harness IS the reproduction on the real code
+    #[path = "@ND@"]
+    mod nd;
+    /// the line numbers of the `Location::caller` stub only exist under Kani (natively the real
+    /// `caller_location` answers)
+    const CHECK_LINES: bool = cfg!(not(test));
 
     fn loc(line: u32) -> sch::Location {
         sch::Location { line, column: 1, file: String::new() }
@@ -121,7 +129,7 @@ mod verif_c19 {
     }
 
     fn any_cloning() -> (CloningPolicy, sch::CloningPolicy) {
-        if kani::any() {
+        if nd::any_bool() {
             (CloningPolicy::CloneIfNecessary, sch::CloningPolicy::CloneIfNecessary)
         } else {
             (CloningPolicy::NeverClone, sch::CloningPolicy::NeverClone)
@@ -146,9 +154,8 @@ mod verif_c19 {
     #[kani::proof]
     #[kani::unwind(5)]
     fn c19_constructor_lifecycle_and_cloning() {
-        let rot: bool = kani::any();
-        let copy: u8 = kani::any();
-        kani::assume(copy < 2);
+        let rot: bool = nd::any_bool();
+        let copy: u8 = nd::u8_below(2);
         let mut bp = schema4(0, rot);
         let (id, line) = target4(rot, copy);
         let mut want_l: Option<sch::Lifecycle> = None;
@@ -156,12 +163,10 @@ mod verif_c19 {
         let mut r = RegisteredConstructor { blueprint: &mut bp, component_id: id };
         let mut i = 0;
         while i < 3 {
-            let k: u8 = kani::any();
-            kani::assume(k < 4);
+            let k: u8 = nd::u8_below(4);
             r = match k {
                 0 => {
-                    let l: u8 = kani::any();
-                    kani::assume(l < 3);
+                    let l: u8 = nd::u8_below(3);
                     match l {
                         0 => {
                             want_l = Some(sch::Lifecycle::Singleton);
@@ -221,9 +226,8 @@ mod verif_c19 {
         let mut r = RegisteredConstructor { blueprint: &mut bp, component_id: 0 };
         let mut i = 0;
         while i < calls {
-            let unused: bool = kani::any();
-            let s: u8 = kani::any();
-            kani::assume(s < 3);
+            let unused: bool = nd::any_bool();
+            let s: u8 = nd::u8_below(3);
             let slot = if unused { 0 } else { 1 };
             r = match (s, unused) {
                 (0, true) => { want[slot] = Some(sch::LintSetting::Allow); r.allow(Lint::Unused) }
@@ -295,9 +299,8 @@ mod verif_c19 {
     #[kani::proof]
     #[kani::unwind(5)]
     fn c19_config_modifiers() {
-        let rot: bool = kani::any();
-        let copy: u8 = kani::any();
-        kani::assume(copy < 2);
+        let rot: bool = nd::any_bool();
+        let copy: u8 = nd::u8_below(2);
         let mut bp = schema4(1, rot);
         let (ci, cline) = target4(rot, copy);
         let mut want_c: Option<sch::CloningPolicy> = None;
@@ -307,8 +310,7 @@ mod verif_c19 {
             let mut r = RegisteredConfig { blueprint: &mut bp, component_id: ci };
             let mut i = 0;
             while i < 3 {
-                let k: u8 = kani::any();
-                kani::assume(k < 6);
+                let k: u8 = nd::u8_below(6);
                 r = match k {
                     0 => { let (c, w) = any_cloning(); want_c = Some(w); r.cloning(c) }
                     1 => { want_c = Some(sch::CloningPolicy::CloneIfNecessary); r.clone_if_necessary() }
@@ -344,9 +346,8 @@ mod verif_c19 {
     #[kani::proof]
     #[kani::unwind(5)]
     fn c19_prebuilt_modifiers() {
-        let rot: bool = kani::any();
-        let copy: u8 = kani::any();
-        kani::assume(copy < 2);
+        let rot: bool = nd::any_bool();
+        let copy: u8 = nd::u8_below(2);
         let mut bp = schema4(2, rot);
         let (pi, pline) = target4(rot, copy);
         let mut want_p: Option<sch::CloningPolicy> = None;
@@ -354,8 +355,7 @@ mod verif_c19 {
             let mut r = RegisteredPrebuilt { blueprint: &mut bp, component_id: pi };
             let mut i = 0;
             while i < 2 {
-                let k: u8 = kani::any();
-                kani::assume(k < 3);
+                let k: u8 = nd::u8_below(3);
                 r = match k {
                     0 => { let (c, w) = any_cloning(); want_p = Some(w); r.cloning(c) }
                     1 => { want_p = Some(sch::CloningPolicy::CloneIfNecessary); r.clone_if_necessary() }
@@ -420,11 +420,10 @@ mod verif_c19 {
         let child = crate::Blueprint { schema: sch::Blueprint { creation_location: loc(2), components: vec![prebuilt(20), constructor(21)] } };
         let mut want_p: Option<(&str, u32)> = None;
         let mut want_d: Option<(&str, u32)> = None;
-        let n: u8 = kani::any();
-        kani::assume(n >= 1 && n <= 3);
+        let n: u8 = 1 + nd::u8_below(3);
         // the first call goes through the public entry point on Blueprint
-        let first_is_prefix: bool = kani::any();
-        let alt: bool = kani::any();
+        let first_is_prefix: bool = nd::any_bool();
+        let alt: bool = nd::any_bool();
         let mut m: RoutingModifiers<'_> = if first_is_prefix {
             let p = if alt { "/a" } else { "/b" };
             let r = parent.prefix(p);
@@ -439,8 +438,8 @@ mod verif_c19 {
         let mut i = 1;
         while i < 3 {
             if i < n {
-                let is_prefix: bool = kani::any();
-                let alt: bool = kani::any();
+                let is_prefix: bool = nd::any_bool();
+                let alt: bool = nd::any_bool();
                 if is_prefix {
                     let p = if alt { "/a" } else { "/b" };
                     m = m.prefix(p);
@@ -460,12 +459,12 @@ mod verif_c19 {
         assert!(untouched_constructor(&comps[0], 10) && untouched_config(&comps[1], 11) && untouched_prebuilt(&comps[2], 12), "nesting changed or reordered the components registered before it");
         match &comps[3] {
             sch::Component::NestedBlueprint(nb) => {
-                assert!(nb.nested_at.line == nest_line, "the nesting location is not the one of the nest() call");
+                assert!(!CHECK_LINES || nb.nested_at.line == nest_line, "the nesting location is not the one of the nest() call");
                 match (&nb.path_prefix, want_p) {
                     (None, None) => {}
                     (Some(pp), Some((p, line))) => {
                         assert!(str_is(&pp.path_prefix, p), "the nested blueprint does not carry the prefix of the last prefix() call");
-                        assert!(pp.registered_at.line == line, "the prefix location is not the one of the last prefix() call");
+                        assert!(!CHECK_LINES || pp.registered_at.line == line, "the prefix location is not the one of the last prefix() call");
                     }
                     _ => panic!("a prefix appeared from nowhere or was lost"),
                 }
@@ -473,7 +472,7 @@ mod verif_c19 {
                     (None, None) => {}
                     (Some(dd), Some((d, line))) => {
                         assert!(str_is(&dd.domain, d), "the nested blueprint does not carry the domain of the last domain() call");
-                        assert!(dd.registered_at.line == line, "the domain location is not the one of the last domain() call");
+                        assert!(!CHECK_LINES || dd.registered_at.line == line, "the domain location is not the one of the last domain() call");
                     }
                     _ => panic!("a domain guard appeared from nowhere or was lost"),
                 }
@@ -486,5 +485,13 @@ mod verif_c19 {
         kani::cover!(n == 3 && want_p.is_some() && want_d.is_some(), "three calls, prefix and domain both set");
         kani::cover!(n == 2 && want_d.is_none(), "prefix after prefix");
         std::mem::forget(parent);
+    }
+
+    #[cfg(test)]
+    mod native_search {
+        use super::*;
+        fn reset() {}
+        macro_rules! ns { ($($h:ident),*) => { $( #[test] fn $h() { nd::search(stringify!($h), super::$h, reset) } )* } }
+        ns!(c19_constructor_lifecycle_and_cloning, c19_config_modifiers, c19_prebuilt_modifiers, c19_nesting_prefix_domain);
     }
 }
